@@ -14,4 +14,5 @@ INVARIANT NoLeftovers
 PROPERTY Idempotent
 PROPERTY FinalStable
 PROPERTY SourceOnlyShrinks
+PROPERTY NewestMdNeverRemoved
 CHECK_DEADLOCK FALSE
